@@ -174,7 +174,7 @@ ALLOWED_SIMPLIFY_ERRORS = ('ZeroDivisionError', 'ValueError', 'OverflowError')
 def _sort_of_slot(slot):
     from hplmc.universe import NAME_SORT
 
-    return NAME_SORT[slot[1]]
+    return NAME_SORT.get(slot[1], 'N')  # an escaped bound variable (i, j) is a number
 
 
 def compare(t_in, t_out, r=None):
